@@ -135,6 +135,9 @@ def run(res, tier, seed, shard, nshards):
         jobs.append(("F", "random", None, None))
     for i in range(6):
         jobs.append(("D", i))
+    # the bytes of an HTTP proxy answering CONNECT (statuses, challenge headers with and without parameters, malformed heads)
+    for i in range(400 if tier == "quick" else 12000):
+        jobs.append(("P", i))
     # server bytes outlive the connection that carried them: Set-Cookie data of earlier responses (process-wide jar) meets later connects
     for i in range(300 if tier == "quick" else 8000):
         jobs.append(("K", i))
@@ -149,6 +152,8 @@ def run(res, tier, seed, shard, nshards):
                 frame_case(res, W, rng, job, ji, tier)
             elif job[0] == "K":
                 cookie_history_case(res, W, rng)
+            elif job[0] == "P":
+                proxy_reply_case(res, W, rng)
             else:
                 declared_pairs(res, W, rng, job[1])
 
@@ -184,6 +189,61 @@ COOKIE_LINES = [
     "a=1, b=2; Domain=example.com", "$Version=1; a=1; Domain=example.com", "a=1; domain=example.com", "a=1;Domain=example.com;", "a=\x00\x01; Domain=example.com",
     "sid=five; Domain=com", "sid=six; Domain=127.0.0.1", "sid=seven; Domain=::1", "[x]=1; Domain=example.com", "a b=c d; Domain=example.com",
 ]
+
+
+PROXY_STATUS = ["200 Connection established", "200 OK", "407 Proxy Authentication Required", "407", "403 Forbidden", "502 Bad Gateway", "100 Continue", "301 Moved",
+                "204 No Content", "999 Weird", "abc def", "", "407 \xb2"]
+PROXY_HEADERS = ["Proxy-Authenticate: Basic realm=\"proxy\"", "Proxy-Authenticate: Negotiate", "Proxy-Authenticate: NTLM", "Proxy-Authenticate:", "Proxy-Authenticate: Basic",
+                 "Proxy-Authenticate: Digest realm=\"x\", nonce=\"abc\", qop=\"auth\"", "Proxy-Authenticate: Negotiate\r\nProxy-Authenticate: NTLM", "proxy-authenticate: negotiate",
+                 "Proxy-Authenticate: =", "Proxy-Authenticate:  \t ", "Proxy-Connection: close", "Connection: close", "Content-Length: 0", "Content-Length: abc",
+                 "Content-Length: 99999999999", "Via: 1.1 proxy", "X-Long: " + "v" * 70000, "NoColonHere", ": empty-name", "Proxy-Authenticate: Bas\xe9c", "Retry-After: \xb2",
+                 "Location: ws://elsewhere.test/", "Set-Cookie: a=1; Domain=example.com; Max-Age=soon"]
+
+
+def proxy_reply_case(res, W, rng):
+    H.reset_process_state()
+    status = rng.choice(PROXY_STATUS)
+    hdrs = [rng.choice(PROXY_HEADERS) for _ in range(rng.choice([0, 1, 1, 2, 3]))]
+    body = rng.choice([b"", b"", b"<html>denied</html>", b"\x00\xff"])
+    ending = rng.choice(["\r\n\r\n", "\r\n\r\n", "\n\n", "\r\n", ""])
+    reply = ("HTTP/1.1 " + status + "\r\n" + "".join(h + "\r\n" for h in hdrs)).encode("latin-1")[:-2] + ending.encode() + body
+    eof = rng.random() < 0.5
+    conns = []
+
+    def on_conn(conn):
+        conns.append(conn)
+        t = H.TunnelPeer(conn, reply=reply)
+        if eof:
+            orig = t._data
+
+            def data(c, d):
+                orig(c, d)
+                if t.connect_request is not None:
+                    c.peer_close()
+            conn.on_client_data = data
+
+    H.make_net(on_conn)
+    secure = rng.random() < 0.3
+    cred = rng.choice([None, None, ("user", "pass")])
+    case = {"phase": "handshake", "label": "proxy-reply", "reply": reply[:300], "eof_after": eof, "secure": secure}
+    res.count("proxy_reply_cases")
+    res.case(("P", reply[:400], eof, secure, bool(cred)), nontrivial=True)
+    w = None
+    try:
+        w = W.create_connection(("wss" if secure else "ws") + "://origin.test/p", timeout=2, http_proxy_host="proxy.test", http_proxy_port=3128,
+                                proxy_type="http", **({"http_proxy_auth": cred} if cred else {}))
+        res.count("handshake_connected")
+    except BaseException as e:  # noqa
+        if isinstance(e, (KeyboardInterrupt, sched.SimAbort)):
+            raise
+        record_exception(res, W, e, "handshake", "proxy-reply", case, conns[0] if conns else None)
+    for c in conns:
+        size_monitor(res, c, "handshake", "proxy-reply", case)
+    if w is not None:
+        try:
+            w.shutdown()
+        except Exception:  # noqa
+            pass
 
 
 def cookie_history_case(res, W, rng):
